@@ -122,7 +122,7 @@ theorem segment_segsBytes (segs : List (Char ⊕ UInt8)) (h : Good segs []) :
 
 /-- tokens of one segment, as `flush` emits them -/
 def tokOfSeg : Char ⊕ UInt8 → List Tok
-  | .inl c => if isC1 c then (utf8 c).map escOfByte else [.raw c]
+  | .inl c => if staysEscaped c then (utf8 c).map escOfByte else [.raw c]
   | .inr b => [escOfByte b]
 
 theorem flush_eq (bs : List UInt8) : flush bs = (segment bs).flatMap tokOfSeg := by
@@ -131,7 +131,7 @@ theorem flush_eq (bs : List UInt8) : flush bs = (segment bs).flatMap tokOfSeg :=
 
 /-- a segment whose tokens are escapes again (an ill-formed byte, or a C1 control) -/
 def IsEsc : Char ⊕ UInt8 → Prop
-  | .inl c => isC1 c = true
+  | .inl c => staysEscaped c = true
   | .inr _ => True
 
 /-- second pass: `itemOf` on already produced tokens, then `assemble` -/
@@ -188,10 +188,19 @@ theorem pass2_flush_first (U : List UInt8) (toks : List Tok) (acc : List UInt8)
 theorem utf8_c1_high_nat : ∀ n, n < 0xa0 → 0x80 ≤ n → ∀ b ∈ utf8 (Char.ofNat n), 0x80 ≤ b.toNat := by
   decide +kernel
 
-theorem utf8_c1_high {c : Char} (h : isC1 c = true) : ∀ b ∈ utf8 c, 0x80 ≤ b.toNat := by
-  simp only [isC1, Bool.and_eq_true, decide_eq_true_eq] at h
-  have := utf8_c1_high_nat c.toNat (by omega) h.1
-  rwa [Char.ofNat_toNat] at this
+/-- the UTF-8 bytes of a whitespace character beyond ASCII are all ≥ 0x80 (18 characters, by
+evaluation) -/
+theorem utf8_uspace_high_nat : ∀ n ∈ uSpaces, ∀ b ∈ utf8 (Char.ofNat n), 0x80 ≤ b.toNat := by
+  decide +kernel
+
+theorem utf8_c1_high {c : Char} (h : staysEscaped c = true) : ∀ b ∈ utf8 c, 0x80 ≤ b.toNat := by
+  simp only [staysEscaped, Bool.or_eq_true] at h
+  rcases h with h | h
+  · simp only [isC1, Bool.and_eq_true, decide_eq_true_eq] at h
+    have := utf8_c1_high_nat c.toNat (by omega) h.1
+    rwa [Char.ofNat_toNat] at this
+  · have := utf8_uspace_high_nat c.toNat (by simpa using h)
+    rwa [Char.ofNat_toNat] at this
 
 /-- all bytes of escape-producing segments of a high run are ≥ 0x80 -/
 theorem segBytes_high_of_isEsc {x : Char ⊕ UInt8} (hx : SegHigh x) (he : IsEsc x) :
